@@ -197,4 +197,42 @@ def run(chk, facts_dir, tier):
                          "filter_commit (%s): when a stream scan's batch ends with a multi-stream transaction whose last event belongs to another stream, the scan continues in the "
                          "next segment at that other stream's version and skips or repeats events" % show(term)[:90], b5, t["line"])
     chk.floor("R3.5", n5, 2)
+
+    # ---------------- R3.6 reverse scans start at the mirrored index
+    chk.rule("R3.6", "REVERSE MIRROR: SegmentIter::new positions a reverse scan at `len - 1 - offsets_index` for every in-range start index; the start index is compared with "
+                     "`offsets.len()` only - no start position is special-cased by a comparison with a constant (found D25: index 0 was read as 'from the end', so a reverse "
+                     "scan from the first position of a segment returned the whole segment)")
+    sn = prog.body("sierradb::bucket::segment::iter::SegmentIter::new")
+    chk.analysed(sn.path)
+    sev = Ev(prog, sn)
+    from .c13 import addsub_leaves
+    mirror = False
+    for i, j, s_ in sn.assigns():
+        if s_["rv"]["k"] == "agg" and str(s_["rv"].get("ak", "")).endswith("segment::iter::SegmentIter") and "offsets_index" in s_["rv"]["fields"]:
+            t = strip(sev.operand(s_["rv"]["ops"][s_["rv"]["fields"].index("offsets_index")], (i, j)))
+            for alt in (t[1] if t[0] == "phi" else (t,)):
+                lv = [(sg, strip(lf)) for sg, lf in addsub_leaves(alt)]
+                pos_len = [1 for sg, lf in lv if sg == 1 and lf[0] == "call" and lf[1].endswith("::len")]
+                neg_idx = [1 for sg, lf in lv if sg == -1 and lf[0] == "param" and lf[2] == "offsets_index"]
+                const = sum(sg * lf[2] for sg, lf in lv if lf[0] == "const" and isinstance(lf[2], int))
+                if len(pos_len) == 1 and len(neg_idx) == 1 and const == -1 and len(lv) == 3:
+                    mirror = True
+    if mirror:
+        chk.ok("R3.6", "reverse start index is len - 1 - offsets_index", sn.where())
+    else:
+        chk.fail("R3.6", sn.path, "no-mirror", "SegmentIter::new no longer positions a reverse scan at len - 1 - offsets_index", sn)
+    n6 = 0
+    for c in comparisons(prog, sn, sev):
+        for me, other in ((c["a"], c["b"]), (c["b"], c["a"])):
+            m = strip(me)
+            if not (m[0] == "param" and m[2] == "offsets_index"):
+                continue
+            n6 += 1
+            o = strip(other)
+            if o[0] == "const":
+                chk.fail("R3.6", sn.path, "position-special-cased", "the start index is compared with the constant %s: that start position is treated differently from its neighbours "
+                         "(index 0 read as 'from the end' makes a reverse scan from a segment's first event return the whole segment)" % show(o), sn, c["line"])
+            else:
+                chk.ok("R3.6", "start index compared with %s" % show(o)[:40], sn.where(c["line"]))
+    chk.floor("R3.6", n6, 1)
     return {}
